@@ -7,7 +7,8 @@
 (*   Call     vm CallNative -> callNative: the function the index reaches     *)
 (*   Convert  toNative for every argument, zero-fill                          *)
 (*   Return / Abort   fromNative of the result / the function's error         *)
-(* and signature/argument universes shared by MC_Native and Gen_Native.       *)
+(* and signature/argument universes shared by MC_Native and Gen_Native         *)
+(* (ExtSigs: extreme results; GenSigs: shapes built from parts).              *)
 EXTENDS Native
 
 VARIABLES phase, sig, args, called, shadow, cf, recv, printed, ran
@@ -51,7 +52,10 @@ MachineOutcome ==
     [] phase = "setup-error" -> [o |-> "setup-error"]
     [] phase = "not-called"  -> [o |-> "not-called"]
     [] phase = "aborted"     -> [o |-> "abort", recv |-> recv, ran |-> ran, dlines |-> OtherLines(shadow)]
-    [] phase = "returned"    -> [o |-> "ok", recv |-> recv, ran |-> ran, dlines |-> OtherLines(shadow), printed |-> printed]
+    [] phase = "returned"    -> IF sig.res = "ext"      \* the number an extreme result is: a function of the signature
+                                THEN [o |-> "ok", recv |-> recv, ran |-> ran, dlines |-> OtherLines(shadow), printed |-> printed,
+                                      num |-> ExtNum(sig.rk, sig.xv)]
+                                ELSE [o |-> "ok", recv |-> recv, ran |-> ran, dlines |-> OtherLines(shadow), printed |-> printed]
 
 \* ---- universes ----
 ResModes(params, variadic) ==
@@ -63,6 +67,20 @@ MkSig(params, variadic, rm) ==
   [shape |-> "ok", name |-> "fn", params |-> params, variadic |-> variadic, res |-> rm.res, rk |-> rm.rk, err |-> rm.err]
 InvalidSig(shape) ==
   [shape |-> shape, name |-> "fn", params |-> <<>>, variadic |-> FALSE, res |-> "none", rk |-> "int", err |-> "none"]
+\* extreme results: every result kind x every extreme value of that kind x {no error result, nil error}
+ExtSigs(params) == UNION {{MkExt(params, k, x, e) : x \in ExtOf(k), e \in {"none", "nil"}} : k \in Kinds}
+\* shapes built from parts: one parameter of every kind (documented or not), plain and variadic; a documented and an
+\* undocumented parameter in either order; 1..3 results with every first and second result type
+GenParamSigs ==
+  {MkGen(<<k>>, vr, 0, "int", "error") : k \in ParamKinds, vr \in {FALSE, TRUE}}
+  \cup UNION {{MkGen(ps, vr, 0, "int", "error") : vr \in {FALSE, TRUE}}
+              : ps \in UNION {{<<g, k>>, <<k, g>>} : g \in {"int", "string"}, k \in BadKinds}}
+GenResultSigs ==
+  UNION {{MkGen(ps, FALSE, 1, k, "error") : k \in ParamKinds}
+         \cup {MkGen(ps, FALSE, 2, k, r) : k \in ParamKinds, r \in SecondKinds}
+         \cup {MkGen(ps, FALSE, 3, k, r) : k \in {"int", "struct"}, r \in SecondKinds}
+         : ps \in {<<>>, <<"int">>}}
+GenSigs == GenParamSigs \cup GenResultSigs
 KeywordSig(name) ==
   [shape |-> "ok", name |-> name, params |-> <<"int">>, variadic |-> FALSE, res |-> "const", rk |-> "int", err |-> "none"]
 =============================================================================
